@@ -202,6 +202,8 @@ def _kind(fn, in_class):
         return "classmethod"
     if "property" in decs:
         return "getter"
+    if any(d.split("(")[0].split(".")[-1] in ("cached_property", "lru_cache", "cache") for d in decs):
+        return "cached"
     if any(d.endswith(".setter") for d in decs):
         return "setter"
     return "method"
